@@ -81,7 +81,9 @@ def run_tlc(module, cfg=None, *, workers=16, env=None, timeout=3600,
     else:
         cpath = cfg if os.path.isabs(cfg) else os.path.join(SPEC, cfg + ("" if cfg.endswith(".cfg") else ".cfg"))
     meta = tempfile.mkdtemp(prefix="tlcmeta-")
-    cmd = ["java", "-XX:+UseParallelGC", "-Xmx" + heap, "-Xss64m", "-cp", JAR, "tlc2.TLC",
+    # (java.io.tmpdir: TLC leaves a tlc-<number> directory per run in the temporary directory; inside the metadir it
+    # is removed with it)
+    cmd = ["java", "-XX:+UseParallelGC", "-Xmx" + heap, "-Xss64m", "-Djava.io.tmpdir=" + meta, "-cp", JAR, "tlc2.TLC",
            "-metadir", meta, "-noGenerateSpecTE", "-config", cpath,
            "-workers", str(workers)]
     mode = "bfs"
